@@ -491,6 +491,7 @@ func genPause(c *ctx) {
 		outcome  string
 		res      e2eResult
 		keep     int
+		hiccup   bool
 	}
 	const timeout = 2
 	var cases []*pc
@@ -501,6 +502,17 @@ func genPause(c *ctx) {
 		cfg := e2eCfg{upload: b%2 == 0, binary: (b/2)%2 == 0, directory: b%3 == 2, proto: []int{-1, 3, 4}[b%3],
 			timeout: timeout, quiet: b%2 == 0, bufsize: "4k", deadline: 60 * time.Second}
 		tops := stopTree(rng, root, cfg.directory)
+		probing := b%4 == 3 || b%4 == 0 && b > 0
+		if probing {
+			// default buffer limit and a file of a few MB: the sender spends its first ~10 frames in
+			// the buffer-size probing phase (10 KB doubling up to the limit); pauses land inside it
+			cfg.bufsize = ""
+			cfg.directory = false
+			os.MkdirAll(filepath.Join(root, "s"), 0755)
+			p := filepath.Join(root, "s", "big.bin")
+			os.WriteFile(p, fillBytes(rng, 3<<20, 0), 0644)
+			tops = []string{p}
+		}
 		counts := baselineCounts(cfg, tops, root)
 		per := c.pick(10, 60)
 		for k := 0; k < per; k++ {
@@ -508,9 +520,18 @@ func genPause(c *ctx) {
 			if counts[p.dir] > 2 {
 				p.idx = 2 + c.rng.Intn(counts[p.dir]-2)
 			}
+			if probing && counts[p.dir] > 6 {
+				p.idx = 3 + c.rng.Intn(minInt(14, counts[p.dir]-4)) // inside the probing phase
+			}
+			p.hiccup = p.cycles > 1 && c.rng.Intn(2) == 0
 			p.length = []time.Duration{300 * time.Millisecond, 900 * time.Millisecond, 1500 * time.Millisecond,
 				2100 * time.Millisecond, 3500 * time.Millisecond}[c.rng.Intn(5)]
-			p.desc = fmt.Sprintf("pause %v x%d at %s write #%d/%d (timeout %ds) :: %s", p.length, p.cycles,
+			if p.hiccup {
+				// a link hiccup of 0.8 s before the second pause, which then lasts 1.3 s: the read that
+				// was pending through the hiccup expires during that pause
+				p.length = 1300 * time.Millisecond
+			}
+			p.desc = fmt.Sprintf("pause %v x%d hiccup=%v at %s write #%d/%d (timeout %ds) :: %s", p.length, p.cycles, p.hiccup,
 				[]string{"c2s", "s2c"}[p.dir], p.idx, counts[p.dir], timeout, describeCfg(cfg))
 			cases = append(cases, p)
 		}
@@ -531,6 +552,7 @@ func genPause(c *ctx) {
 		var wmu sync.Mutex
 		var writes []wr
 		var keep atomic.Int64
+		var stallUntil atomic.Int64
 		var windows [][2]int64
 		var winMu sync.Mutex
 		inner := atWriteSync(p.dir, p.idx, func() {
@@ -556,6 +578,10 @@ func genPause(c *ctx) {
 						if !r.filter.IsTransferringFiles() {
 							return
 						}
+						if p.hiccup {
+							stallUntil.Store(time.Now().Add(800 * time.Millisecond).UnixNano())
+							time.Sleep(700 * time.Millisecond)
+						}
 						r.cliIn.Write([]byte{0x03})
 						from = time.Now().UnixNano()
 					}
@@ -574,6 +600,11 @@ func genPause(c *ctx) {
 			}()
 		})
 		cfg.hook = func(d, i int, b []byte) e2eAction {
+			if d == dirS2C {
+				if w := stallUntil.Load() - time.Now().UnixNano(); w > 0 {
+					time.Sleep(time.Duration(w)) // the link from the server stalls
+				}
+			}
 			if d == dirC2S && (bytes.HasPrefix(b, []byte("#DATA:=")) || bytes.HasPrefix(b, []byte("#SUCC:="))) {
 				keep.Add(1)
 			}
